@@ -23,10 +23,12 @@ RULE = ("generated geometries x option sets (both APIs, all methods) with a HIST
         "same op file in separate processes under ASLR on/off, MALLOC_PERTURB_ 0/165/255, MALLOC_ARENA_MAX=1, "
         "MALLOC_MMAP_THRESHOLD_ 4096 / 1 GiB, two pre-fragmented dirty heaps: every output line must be identical; "
         "thorough: a subset under valgrind memcheck (undefined-value errors end the run); non-trivial = distinct op line")
-THEOREM_BACKED = ("decode_is_a_function (trivial), encoder_state_irrelevant / expert_encoder_state_irrelevant (API object "
-                  "state machine: call n's output is a function of the setter calls and the geometry only), "
-                  "trailing_bytes_stable_* (DecM readers that do not look at the end are unaffected by appended bytes; "
-                  "header instance)")
+THEOREM_BACKED = ("decode_is_a_function (trivial); expert_encoder_state_irrelevant / encoder_state_irrelevant / "
+                  "expert_reused_eq_fresh / encoder_reused_eq_fresh / decoder_state_irrelevant (API objects as state "
+                  "machines: the output of call n is a function of the setter calls and the geometry / bytes only); "
+                  "encoder_counts_depend_on_history (faithful negative result for the counters of draco::Encoder); "
+                  "trailing_bytes_stable_header / trailing_bytes_stable_att_descs / stable_remaining_size (DecM readers "
+                  "that only look at what they consume are unaffected by appended bytes; remaining_is_not_stable)")
 CORRESPONDENCE_ONLY = ("runtime determinism (uninitialised memory, container order, heap layout) is OBSERVED by "
                        "perturbation, not proved: the property is labelled partial")
 EXPLANATION = ("the logic part is small: decoding is a function by construction of the model; the API state machine "
@@ -263,7 +265,7 @@ def base_cases(rng, tier):
     return cases
 
 
-def with_envs(base, envs, flavour="plain"):
+def with_envs(base, envs, control_ref, flavour="plain"):
     out = []
     for label, env in envs:
         probe = Case("det_env", model=False, tags=("env:" + label,), nontrivial=False)
@@ -273,6 +275,14 @@ def with_envs(base, envs, flavour="plain"):
             return f"env-effective:{label}:" + (probe.hout or "?").replace(" ", ",")[:80]
         probe.mtag = tag
         out.append(probe)
+        ctl = Case("det_control", model=False, tags=(), nontrivial=False)
+        ctl.env = dict(env)
+
+        def ctag(mout, ctl=ctl, label=label, ref=control_ref):
+            same = ref.hout is not None and ctl.hout == ref.hout
+            return f"control:{label}:" + ("NOT-distinguished-from-default-process" if same else "distinguished")
+        ctl.mtag = ctag
+        out.append(ctl)
         for b in base:
             c = Case(b.op, model=False, oracle=env_oracle(b, label), tags=("env:" + label,), flavour=flavour,
                      nontrivial=False, note=b.note)
@@ -284,7 +294,10 @@ def with_envs(base, envs, flavour="plain"):
 def generate(rng, tier):
     base = base_cases(rng, tier)
     cases = list(base)
-    cases += with_envs(base, ENVS)
+    # positive control: a line that prints uninitialised memory and an address must come out differently
+    control_ref = Case("det_control", model=False, tags=("control",), nontrivial=False)
+    cases.append(control_ref)
+    cases += with_envs(base, ENVS, control_ref)
     if tier == "thorough":
         sub = rng.sample(base, 40)
         vg = []
@@ -293,6 +306,11 @@ def generate(rng, tier):
             c.env = {"VH_VALGRIND": "1"}
             c.sig_override = "uninitialised-memory:valgrind-memcheck"
             vg.append(c)
+        ctl = Case("det_control", model=False, nontrivial=False)
+        ctl.env = {"VH_VALGRIND": "1"}
+        ctl.crash_ok = True
+        ctl.mtag = lambda mout, ctl=ctl: "control:valgrind:" + ("stops-on-uninitialised-value" if (ctl.hout or "").startswith("CRASH rc=97") else "DID-NOT-STOP(" + (ctl.hout or "")[:30] + ")")
+        vg.append(ctl)
         cases += vg
         # and the base set once under ASan+UBSan
         for b in base[::3]:
@@ -305,7 +323,7 @@ def replay_cases(lines):
     env = json.loads(os.environ.get("VERIF_REPLAY_ENV", "{}"))
     refs = []
     for l in lines:
-        if l.startswith("det_env"):
+        if l.startswith("det_env") or l.startswith("det_control"):
             continue
         refs.append(Case(l, model=False, oracle=detdec_oracle if l.startswith("det_dec") else det_oracle))
     out = list(refs)
